@@ -261,6 +261,28 @@ def obligations(tier, seed):
                                    ("JMP", "UNDEF"), ("LDX", "#UNDEF+2")]):
         obs.append(make_d("undef-m%d" % i, (lambda a, o: (lambda ctx: [" %s %s" % (a, o), "L NOP"]))(m, opnd), "diag", m + " " + opnd))
 
+    def include_twice_lines(ctx):
+        t, o = ctx.lit("H4", "o")
+        ctx.assume(o <= 60000)
+        return [" ORG %s" % t, "START LDB #4", " INCLUDE frag.asm", "MID LDX #START", " INCLUDE frag.asm", "TAIL JMP MID", "LAST NOP"]
+
+    def include_twice_ok(ctx, out):
+        if out.kind != "ok":
+            return False
+        return _later_org(ctx, out) and len(image(out.program)) == 2 + 5 + 3 + 5 + 3 + 1
+
+    def make_inc(did, lines_fn, expect, text):
+        from vlib.harness import MemFS
+        inner = make_d(did, lines_fn, expect, text)
+        body0 = inner.body
+
+        def body(ctx):
+            with MemFS({"frag.asm": [" CLR ,X+\n", " LDA #$55\n", " NOP\n"]}):
+                return body0(ctx)
+        inner.body = body
+        return inner
+    obs.append(make_inc("include-twice", include_twice_lines, include_twice_ok, "a label-free file included twice: layout and image"))
+
     def later_org(ctx):
         t1, o1 = ctx.lit("H4", "o1")
         t2, o2 = ctx.lit("H4", "o2")
